@@ -1108,9 +1108,105 @@ def craft_random(isa, r):
     return "craft.random", bytes(assemble(1, 0, secs))
 
 
+def craft_hidden(isa, r):
+    """"Hidden instruction": the verifier range-checks a jump target but not its alignment, so a jump to the FIRST
+    IMMEDIATE BYTE of a PUSH_I64 / PUSH_F64 makes the VM execute bytes the verifier never decoded.  The immediate spells
+    `<opcode> <operands at boundary values>` (any opcode of the dumped table that fits, or that spills over into the
+    following code), padded with operand-less opcodes.  Verifier-accepted by construction as long as misaligned targets
+    are accepted; the VM's own run-time checks are all that stands between these operands and memory."""
+    _need(isa, "PUSH_I64", "JMP", "RET")
+    carrier = r.choice([n for n in ("PUSH_I64", "PUSH_F64") if isa.has(n)])
+    pads = [isa.by_name[n] for n in ("NOP", "POP", "HALT", "RET") if isa.has(n)] or isa.zero[:1]
+    nfn, strs = 2, [b"main", b"g", b"s"]
+    nloc = r.choice((0, 1, 2, 3))
+    # ---- the hidden bytes --------------------------------------------------------------------
+    hid = bytearray()
+    hidden_names = []
+    at = r.choice((0, 0, 0, 0, 1, 2, 3, 5, 7))
+    hid += bytes(r.choice(pads) if r.random() < 0.7 else isa.by_name.get("NOP", pads[0]) for _ in range(at))
+    while len(hid) < 8:
+        cand = [op for op in isa.defined if isa.ops[op][1]]
+        if r.random() < 0.85:
+            cand = [op for op in cand if len(hid) + isa.ops[op][2] <= 8] or cand
+        if r.random() < 0.5:
+            # operands that index a table or a frame (the ones a verifier checks statically)
+            cand = [op for op in cand if "U32" in isa.ops[op][1] or "U16" in isa.ops[op][1]] or cand
+        op = r.choice(cand)
+        name, kinds, ln = isa.ops[op]
+        vals = []
+        for k in kinds:
+            if k == "U32":
+                mx = r.choice((nfn, len(strs), 0, 1, 4096, 32, 64))
+                vals.append(r.choice(boundaries(mx, 4) + [31, 32, 33, 40, 63, 64, 65, 0x7FFFFFF0, 0x0FFFFFFF, 0x10000000]))
+            elif k == "U16":
+                mx = r.choice((nloc, 1, 2, 3, 256, 4096))
+                vals.append(r.choice(boundaries(mx, 2) + [255, 256, 4095, 4096, 4097]))
+            elif k == "I32":
+                vals.append(r.choice((0x7FFFFFFF, -0x80000000, -1, -2, 1, 2, 0x7FFFFFF0, -0x7FFFFFF0, 0x10000, -0x10000, r.randrange(-64, 65))))
+            elif k == "U8":
+                vals.append(r.choice(U8_B))
+            elif k == "F64":
+                vals.append(int.from_bytes(struct.pack("<d", r.choice(F64_B)), "little"))
+            else:
+                vals.append(r.choice(I64_B))
+        hid += isa.enc(op, vals)
+        hidden_names.append(name)
+        if len(hid) < 8 and r.random() < 0.6:
+            hid += bytes(r.choice(pads) for _ in range(8 - len(hid)))
+    imm = bytes(hid[:8])                        # a hidden instruction that does not fit takes the rest of its operands from
+    #                                             the real code behind the carrier: the stream stays misaligned
+    # ---- values for the hidden instruction to work on -----------------------------------------
+    setup = bytearray()
+    for _ in range(r.choice((0, 1, 2, 3))):
+        c = r.choice(("int", "str", "arr", "tuple", "struct", "union", "closure", "bool"))
+        if c == "str" and isa.has("PUSH_STR"):
+            setup += isa.enc("PUSH_STR", [r.randrange(len(strs))])
+        elif c == "arr" and isa.has("ARR_NEW"):
+            setup += isa.enc("ARR_NEW", [1])
+        elif c == "tuple" and isa.has("TUPLE_NEW"):
+            setup += isa.enc("PUSH_I64", [5]) + isa.enc("TUPLE_NEW", [1])
+        elif c == "struct" and isa.has("STRUCT_LITERAL"):
+            setup += isa.enc("PUSH_I64", [5]) + isa.enc("STRUCT_LITERAL", [0, 1])
+        elif c == "union" and isa.has("UNION_CONSTRUCT"):
+            setup += isa.enc("PUSH_I64", [5]) + isa.enc("UNION_CONSTRUCT", [0, 1, 1])
+        elif c == "closure" and isa.has("CLOSURE_NEW"):
+            setup += isa.enc("CLOSURE_NEW", [1, 0])
+        elif c == "bool" and isa.has("PUSH_BOOL"):
+            setup += isa.enc("PUSH_BOOL", [1])
+        else:
+            setup += isa.enc("PUSH_I64", [r.choice(I64_B)])
+    # ---- the jump to the first immediate byte -------------------------------------------------
+    jn = r.choice([n for n in ("JMP", "JMP", "JMP_TRUE", "JMP_FALSE", "MATCH_TAG") if isa.has(n)])
+    pre = b""
+    if jn == "JMP_TRUE":
+        pre = isa.enc("PUSH_I64", [1])
+    elif jn == "JMP_FALSE":
+        pre = isa.enc("PUSH_I64", [0])
+    elif jn == "MATCH_TAG":
+        if not isa.has("UNION_CONSTRUCT"):
+            jn = "JMP"
+        else:
+            pre = isa.enc("UNION_CONSTRUCT", [0, 3, 0])
+    jl = isa.ops[isa.by_name[jn]][2]
+    between = b"".join(isa.enc("PUSH_I64", [r.choice(I64_B)]) for _ in range(r.choice((0, 0, 1))))   # skipped by the jump
+    off = jl + len(between) + 1                 # from the start of the jump to the carrier's first immediate byte
+    jump = isa.enc(jn, [3, off] if jn == "MATCH_TAG" else [off])
+    tailshape = r.choice(("ret", "ret", "code", "end", "overlap"))
+    tail = b"" if tailshape in ("end", "overlap") else isa.enc("RET")
+    if tailshape == "code":
+        tail = b"".join(isa.enc("PUSH_I64", [r.choice(I64_B)]) for _ in range(2)) + isa.enc("RET")
+    body0 = bytes(setup) + pre + jump + between + bytes([isa.by_name[carrier]]) + imm + tail
+    # the function behind it: what a stream that runs off a carrier at the end of main decodes next
+    body1 = b"".join(isa.enc("PUSH_I64", [r.choice(I64_B)]) for _ in range(r.choice((1, 2)))) + isa.enc("RET")
+    len0 = len(body0) + (len(body1) if tailshape == "overlap" else 0)      # overlap: main's range covers g's code too
+    fns = [(0, 0, 0, len0, nloc, r.choice((0, 0, 2))), (1, r.choice((0, 0, 1)), len(body0), len(body1), r.choice((0, 1, 2)), 0)]
+    secs = [(T_STR, pack_strings(strs)), (T_CODE, body0 + body1), (T_FN, pack_fns(fns))]
+    return "craft.hidden", bytes(assemble(1, 0, secs))
+
+
 CRAFT = [(craft_random, 40), (craft_divmin, 3), (craft_deeprec, 3), (craft_selfref, 3), (craft_deepnest, 3), (craft_counts, 4),
          (craft_strings, 5), (craft_arrays, 5), (craft_control, 3), (craft_frames, 5), (craft_globals, 3), (craft_closures, 4),
-         (craft_hashmap, 4)]
+         (craft_hashmap, 4), (craft_hidden, 18)]
 
 
 def _wchoice(r, table):
